@@ -9,7 +9,7 @@ for id in $ids; do
   prop=${id%%-*}; wt=/tmp/verif-seedreg-$id
   git -C /repo worktree remove --force $wt >/dev/null 2>&1
   git -C /repo worktree add -q --detach $wt HEAD || { echo "$id WORKTREE-FAILED"; continue; }
-  if ! git -C $wt apply seeded/$id/patch.diff 2>/dev/null; then echo "$id PATCH-DOES-NOT-APPLY"; git -C /repo worktree remove --force $wt; continue; fi
+  if ! git -C $wt apply "$(pwd)/seeded/$id/patch.diff" 2>/dev/null; then echo "$id PATCH-DOES-NOT-APPLY"; git -C /repo worktree remove --force $wt; continue; fi
   out=$(VERIF_EVIDENCE_DIR=/tmp/verif-seedreg-evidence VERIF_REPLAY_DIR=/tmp/verif-seedreg-replays VERIF_REPO=$wt ./check $prop --tier quick --no-minimize --max-report 1 --budget 3000 2>&1)
   inv=$(echo "$out" | grep "invariant:" | head -1 | sed 's/ *invariant: //')
   if echo "$out" | grep -q "^VIOLATION property=$prop"; then echo "$id CAUGHT by $prop ($inv)"; pass=$((pass+1)); else echo "$id MISSED"; fail=$((fail+1)); fi
